@@ -44,7 +44,9 @@ FieldsMatch(e, o) ==
   LET w == IF "wild" \in DOMAIN e THEN e.wild ELSE {} IN
   \A f \in (DOMAIN e) \ ({"wild", "k"} \cup w) : f \in DOMAIN o /\ o[f] = e[f]
 
-RunMatches(er, orun) == er.src \in SetOf(orun.srcs) /\ er.off = orun.off /\ er.len = orun.len
+RunMatches(er, orun) ==
+  \/ er.src \in SetOf(orun.srcs) /\ er.off = orun.off /\ er.len = orun.len
+  \/ orun.srcs = <<"?short">> /\ er.len = orun.len   \* a tail of < 16 bytes the harness could not locate
 DataMatches(eruns, oruns) == Len(eruns) = Len(oruns) /\ \A i \in DOMAIN eruns : RunMatches(eruns[i], oruns[i])
 
 Matches(e, o) ==
@@ -106,7 +108,8 @@ TraceReq ==
              /\ conn' = StaleOthers([conn EXCEPT ![c] = IF e.closed THEN [st |-> "closed", cs |-> InitCs]
                                                           ELSE [st |-> "serving", cs |-> o.cs]],
                                     c, ChangedDirs(fs, o.fs))
-  /\ UNCHANGED <<views, aw>>
+  /\ views' = IF Trace[l].mut THEN ViewsOf(Trace[l].views) ELSE views   \* generated images follow the tree
+  /\ aw' = aw
 
 TraceClose ==
   /\ IsEvent("Close")
